@@ -241,6 +241,7 @@ def freq_axis_unbounded(V):
         st.update(rows=rows, cols=cols, S=Sx, dt=dt)
         return dict(tifq_values=Sx, dt=dt)
     for out in V.run(SW + 'get_max_tifq_vals_freq', setup):
+        out.replay_info = dict(module='stockwell')
         if not out.no_raise():
             continue
         out.side_conditions()
